@@ -68,4 +68,19 @@ PROPS = {
         ],
         "trusted_base": COMMON_TRUSTED + ["Kani 0.68 + CBMC 6.11"],
     },
+    "C04": {
+        "level": "proof",
+        "level_text": "Verus proves, for every scheduler state and every busy/idle pattern of the socket writer, that what Uplinks hands to the writer is exactly what one lane was owed (body, lane label, synced marker), that specials are FIFO and go first, that an unlink purges everything owed to the lane, and that the representation invariant (owed => queued => has a queue entry) is preserved",
+        "level_note": "trusted: Verus+Z3, extractor rules, shims (BytesMut, HashMap::get_mut, entry().or_default(), derive(Default), RemoteSender/LaneRegistry stand-ins, MapOperationQueue contract proved separately); async callers (write_task, handle_event) and Links are not covered by this component",
+        "technique": "contract-based deductive verification: Verus on mechanically extracted real functions",
+        "components": [
+            {"kind": "vx", "unit": "uplinks", "rlimit": 120},
+        ],
+        "assumptions": [
+            "callers push Linked when a (remote, lane) pair enters the link relation and Unlinked when it leaves (async write_task / handle_event code, not under contract)",
+            "lane ids handed to push are registered in the LaneRegistry (ids are never removed)",
+            "supply bodies respect Rust's allocation bound (len <= isize::MAX)",
+        ],
+        "trusted_base": COMMON_TRUSTED,
+    },
 }
